@@ -37,6 +37,8 @@ def check(c: Check):
     clause_d(c)
     clause_e(c)
     clause_f(c)
+    clause_g(c)
+    clause_h(c)
     from .common import sweep_records
     sweep_records(c, 'C07-rec', ['exactly_lib.section_document', 'exactly_lib.util.line_source'], floor=8)
 
@@ -400,3 +402,84 @@ def clause_f(c: Check):
         c.expect(ok, 'C07-f', 'parse_and_compute_source/first-line-number',
                  'the first line number is %s, not the line number before parsing' % util.describe(first), f.loc())
     c.floor('C07-f', 'paths of parse_and_compute_source', n, 1)
+
+
+# ---------------------------------------------------------------- g
+def clause_g(c: Check):
+    """act phase: the lines of the phase are the lines up to the next header or the end of the document.  ParseSource
+    has a current (empty) line even at the end of a document that ends with a newline ("there may exist a current
+    line even though is_at_eof"), so a line may be collected only when the end of the document has been excluded
+    since the last line was consumed"""
+    ix, fo = c.ix, c.fo
+    f = ix.func('exactly_lib.processing.parse.act_phase_source_parser:ActPhaseParser.parse')
+
+    class H(Hooks):
+        loop_bound = 2
+
+    paths = util.func_paths(ix, fo, f, H())
+    c.count(len(paths))
+    n_collect = 0
+    for p in paths:
+        state = 'first-line'   # the caller guarantees a current line on entry
+        for e in p.trace:
+            if e.kind == 'guard':
+                test, truth = e.data
+                if isinstance(test, ast.Attribute) and test.attr == 'is_at_eof':
+                    state = 'not-at-eof' if not truth else 'at-eof'
+            elif e.kind == 'call' and isinstance(e.node.func, ast.Attribute):
+                if e.node.func.attr == 'consume_current_line':
+                    state = 'unknown'
+                elif e.node.func.attr == 'append' and isinstance(e.data.get('recv'), ListVal):
+                    n_collect += 1
+                    c.expect(state in ('first-line', 'not-at-eof'), 'C07-g', 'act-phase/lines-end-at-end-of-document',
+                             'a line is added to the act phase without the end of the document having been excluded '
+                             '(state: %s): a document ending with a newline gets an extra empty act line' % state,
+                             '%s:%d' % (f.module.relpath, e.node.lineno))
+        if p.kind == 'return':
+            # the element's lines are the collected ones
+            pass
+    c.floor('C07-g', 'collected act lines on the analysed paths', n_collect, 2)
+
+
+# ---------------------------------------------------------------- h
+def clause_h(c: Check):
+    """the text that is parsed is the text of the file: between reading a file and constructing the ParseSource
+    nothing transforms the contents (line numbers and line texts of every element are those of the file)"""
+    ix, fo = c.ix, c.fo
+    ps = ix.cls('exactly_lib.section_document.parse_source:ParseSource')
+    sites = [s for s in util.call_sites_of(ix, ps)
+             if s.where.startswith(('exactly_lib.section_document.', 'exactly_lib.processing.'))]
+    c.floor('C07-h', 'constructions of ParseSource for document files', len(sites), 2)
+    for s in sites:
+        f = ix.try_lookup(s.where)
+        if not isinstance(f, FuncDef):
+            continue
+        ok = False
+        for p in util.func_paths(ix, fo, f, Hooks()):
+            for e in p.calls():
+                if e.data.get('callee') == ps and e.data['args']:
+                    ok = _is_unmodified_text(e.data['args'][0])
+        c.expect(ok, 'C07-h', 'parse-source-of-file-text@' + s.where,
+                 'the ParseSource is not constructed from the text as read / as given (a transformation in between '
+                 'shifts line numbers or changes line texts)', s.loc)
+    rd = ix.func('exactly_lib.processing.processors:_SourceReader.apply')
+    ok = False
+    n = 0
+    for p in util.func_paths(ix, fo, rd, Hooks()):
+        if p.kind == 'return':
+            n += 1
+            good = _is_unmodified_text(p.val)
+            ok = good if n == 1 else (ok and good)
+    c.expect(ok, 'C07-h', 'source-reader', 'the test case source is not the text of the file as read', rd.loc())
+
+
+def _is_unmodified_text(v) -> bool:
+    r = util.root_sym(v)
+    if not isinstance(r, Sym) or not r.origin:
+        return False
+    if r.origin[0] == 'param':
+        return True
+    if r.origin[0] == 'call' and isinstance(r.origin[4].func, ast.Attribute) and r.origin[4].func.attr in ('read', 'read_text') \
+            and not r.origin[2]:
+        return True
+    return False
